@@ -1415,6 +1415,76 @@ def gen_eager_case(rng):
     return {"loop": loop, "nlocks": 1, "nevents": 0, "workers": ws, "env": env}
 
 
+def gen_tie_rekey_case(rng):
+    """Directed shape for C12 (stock loop): a re-key that ends in a tie.  G holds lock 1; w1 holds lock 0 and
+    is queued on lock 1; w2 arrives on lock 1 after w1.  Variant a: the urgent U, whose priority equals
+    w2's, waits for lock 0, so w1 inherits exactly w2's priority.  Variant b: w1 and w2 have the same
+    priority, U waits for lock 0 and is cancelled, so w1 is re-keyed up and back.  Among equals the earlier
+    arrival, w1, must get lock 1 first."""
+    mk = lambda kind, pri, script: {"kind": kind, "pri": pri, "script": script}  # noqa: E731
+    pad = lambda n: [["sleep"]] * n  # noqa: E731
+    G = mk(rng.choice("PT"), rng.choice(PRI_POOL), [["acq", 1]] + pad(rng.randint(10, 13)) + [["rel"]])
+    if rng.random() < 0.5:
+        pu = rng.choice(["HIGH", "-5", "-2", "0"])
+        w1 = mk("P", rng.choice(["5", "3", "LOW"]), [["acq", 0], ["acq", 1], ["rel"], ["rel"]])
+        w2 = mk("P", {"HIGH": "-10"}.get(pu, pu) if rng.random() < 0.5 else pu, pad(rng.randint(1, 2)) + [["acq", 1], ["rel"]])
+        U = mk("P", pu, pad(rng.randint(3, 5)) + [["acq", 0], ["rel"]])
+        env = []
+    else:
+        pw = rng.choice(["5", "3", "1", "0"])
+        w1 = mk("P", pw, [["acq", 0], ["acq", 1], ["rel"], ["rel"]])
+        w2 = mk(rng.choice("PPT") if pw == "0" else "P", pw, pad(rng.randint(1, 2)) + [["acq", 1], ["rel"]])
+        U = mk("P", rng.choice(["HIGH", "-5", "-2"]), pad(rng.randint(3, 4)) + [["acq", 0], ["rel"]])
+        env = [[rng.randint(20, 26), "cancel", 3]]
+    return {"loop": "stock", "nlocks": 2, "nevents": 0, "workers": [G, w1, w2, U], "env": env}
+
+
+def gen_plain_donor_case(rng):
+    """Directed shape for C12: the task from which a queued holder inherits is a *plain* task (priority 0).
+    G holds lock 1; W (PriorityTask, less urgent than 0) holds lock 0 and is queued on lock 1 together with X,
+    whose priority lies between 0 and W's; a plain / Python task then waits for lock 0: W's effective
+    priority is 0 and W must get lock 1 before X."""
+    mk = lambda kind, pri, script: {"kind": kind, "pri": pri, "script": script}  # noqa: E731
+    pad = lambda n: [["sleep"]] * n  # noqa: E731
+    loop = rng.choice(["stock", "stock", "prio"])
+    G = mk(rng.choice("PT"), rng.choice(["0", "-1", "NORMAL", "-5"]), [["acq", 1]] + pad(rng.randint(9, 12)) + [["rel"]])
+    W = mk("P", rng.choice(["LOW", "5", "3", "7"]), pad(rng.randint(0, 2)) + [["acq", 0], ["acq", 1], ["rel"], ["rel"]])
+    X = mk("P", rng.choice(["1", "2", "1/2", "3/2"]), pad(rng.randint(0, 3)) + [["acq", 1], ["rel"]])
+    D = mk(rng.choice("TY"), "0", pad(rng.randint(4, 6)) + [["acq", 0], ["rel"]])
+    ws = [G, W, X, D]
+    env = []
+    if rng.random() < 0.25:
+        env.append([rng.randint(16, 24), "cancel", 3])      # the donor gives up: W falls back behind X
+    return {"loop": loop, "nlocks": 2, "nevents": 0, "workers": ws, "env": env}
+
+
+def grid_cases(prop):
+    """A small deterministic set of directed cases, the same on every run whatever the seed: a few
+    instances of every directed generator kind, drawn from a private generator with a fixed seed."""
+    import random
+    rng = random.Random(20260930)
+    plan = {
+        "C11": [(lambda: gen_inherit_case(rng, "C11"), 6), (lambda: gen_chain_contended_case(rng, "C11"), 5),
+                (lambda: gen_headkey_case(rng), 4), (lambda: gen_fallback_case(rng), 5), (lambda: gen_woken_holder_case(rng), 8),
+                (lambda: gen_chain_case(rng), 6), (lambda: gen_raising_callback_case(rng), 6),
+                (lambda: gen_case(rng, "C11"), 8)],
+        "C12": [(lambda: gen_inherit_case(rng, "C12"), 8), (lambda: gen_chain_contended_case(rng, "C12"), 8),
+                (lambda: gen_reuse_case(rng), 5), (lambda: gen_between_owners_case(rng), 4),
+                (lambda: gen_chain_giveup_case(rng), 4), (lambda: gen_two_episodes_case(rng), 4),
+                (lambda: gen_inherited_giveup_case(rng), 4), (lambda: gen_tie_rekey_case(rng), 8),
+                (lambda: gen_plain_donor_case(rng), 8),
+                (lambda: gen_chain_case(rng), 3), (lambda: gen_case(rng, "C12"), 8)],
+        "C13": [(lambda: gen_inflight_case(rng), 12), (lambda: gen_positional_case(rng), 4),
+                (lambda: gen_cycle_case(rng), 8),
+                (lambda: gen_raising_callback_case(rng), 4), (lambda: gen_duck_case(rng), 4),
+                (lambda: gen_eager_case(rng), 4), (lambda: gen_case(rng, "C13"), 12)],
+    }[prop]
+    out = []
+    for make, n in plan:
+        out += [make() for _ in range(n)]
+    return out
+
+
 def gen_chain_case(rng):
     """Directed shape for C11: chain of length 1..4  T0 holds L0, Ti holds Li and waits on L(i-1)?
     With a fixed (ascending) lock order the chain is: Tn-1 holds L(n-1); Ti holds Li, waits L(i+1);
